@@ -347,8 +347,12 @@ class Engine:
                 s.stats['oblig_trivial'] = s.stats.get('oblig_trivial', 0) + 1
                 return
         st.event(('oblig', cond, kind, desc))
-        if not z3.is_false(cond):
-            s.solver.add(cond)       # checked-then-assumed (scoped by the enclosing push)
+        if kind == 'post':
+            return                   # functional post-conditions are checked, never assumed (they must not mask each other)
+        if z3.is_false(cond):
+            st.dead = st.dead or 'failed-' + kind      # the path ends here (the obligation is reported by the final query)
+        else:
+            s.solver.add(cond)       # safety obligations are checked-then-assumed (scoped by the enclosing push)
 
     # ------------------------------------------------------------ memory
     def frame_of(s, st, fid):
@@ -376,6 +380,8 @@ class Engine:
         if z3.is_bv_value(idx):
             i = idx.as_long()
             if i >= len(vec.cells):
+                if st.dead:
+                    return vec.cells[0]
                 raise Unsupported(f'index {i} beyond modelled cells ({len(vec.cells)})')
             return vec.cells[i]
         r = vec.cells[-1]
@@ -424,6 +430,8 @@ class Engine:
             if z3.is_bv_value(idx):
                 i = idx.as_long()
                 if i >= len(cells):
+                    if st.dead:
+                        return cur
                     raise Unsupported(f'write index {i} beyond modelled cells')
                 cells[i] = s._write(st, cells[i], path[1:], val)
             else:
